@@ -8,7 +8,7 @@ import numpy as np
 
 from .. import alph
 from .. import oracles as O
-from ..core import CaseResult, twice
+from ..core import CaseResult, twice, variants
 
 PROP = "C02"
 LEVEL = "exploration"
@@ -101,7 +101,7 @@ def check_case(case):
     tier = case["tier"]
     if case["kind"] == "ubi":
         cells = alph.coarse_cells(tier)
-        for tag, U in rot_list(tier)[case["lo"]:case["hi"]]:
+        for ri, (tag, U) in enumerate(rot_list(tier)[case["lo"]:case["hi"]], case["lo"]):
             for cell in cells:
                 key = "%s:U=%s:cell=%s" % (mname, tag, cell)
                 tol = 1e-9 / O.gram_det(cell)
@@ -137,6 +137,18 @@ def check_case(case):
                     r.check("rod-closure", float(np.max(np.abs(U5 - U))), 1e-6, key + ":rod-closure", "U -> UBI -> Rodrigues -> U closes", U, U5)
                 r.states += 4
                 r.transitions += 9
+                # argument kinds x call forms (one cell per rotation, cycling through the cells): U, cell, UBI and U.B as list / tuple /
+                # views / Fortran order / float32 and, when whole numbers, ints; positionally and by keyword
+                if cells.index(cell) == ri % len(cells):
+                    ts = 2e-5 / O.gram_det(cell)
+                    rel = lambda a, b: float(np.max(np.abs(np.asarray(a, float) - np.asarray(b, float)))) / float(np.max(np.abs(np.asarray(a, float))))
+                    variants(r, key + ":u_to_ubi", mod.u_to_ubi, [U, cell], 0, tol, ts, dev=rel)
+                    variants(r, key + ":u_to_ubi", mod.u_to_ubi, [U, cell], 1, tol, ts, dev=rel)
+                    variants(r, key + ":ubi_to_u", mod.ubi_to_u, [ubi_ref], 0, tol, ts)
+                    variants(r, key + ":ubi_to_cell", mod.ubi_to_cell, [ubi_ref], 0, tol * 100, ts * 10, dev=lambda a, b: O.cell_dev(b, a))
+                    pair = lambda a, b: max(float(np.max(np.abs(np.asarray(a[0], float) - np.asarray(b[0], float)))), rel(a[1], b[1]))
+                    variants(r, key + ":ubi_to_u_b", mod.ubi_to_u_b, [ubi_ref], 0, tol, ts, dev=pair)
+                    variants(r, key + ":ub_to_u_b", mod.ub_to_u_b, [U @ B], 0, tol, ts, dev=pair)
                 if not np.allclose(U, np.eye(3)):
                     r.nontrivial.add("%s:%s:%s" % (mname, tag, cell))
     else:
